@@ -226,9 +226,63 @@ class Engine:
         "inside a loop declared writes='fresh' every write goes to an object allocated by this call"
         if st.fresh_only is None or st.spec:
             return
-        bound, exempt = st.fresh_only
-        self.prove(st, OR(ref_t >= bound, *[ref_t == e for e in exempt]), 'frame', node,
-                   'loop declared writes=fresh: %s goes to an object allocated by this call' % what)
+        bound, exempt, region = st.fresh_only
+        alts = [ref_t == e for e in exempt]
+        if bound is not None:
+            alts.append(ref_t >= bound)
+        if region is not None:
+            alts.append(self.elem_member(region, ref_t))
+        self.prove(st, OR(*alts), 'frame', node,
+                   'loop declared writes=%s: %s stays inside that region'
+                   % ('fresh' if region is None else 'elements', what))
+
+    # -- "the elements of list L" as a write region (modifies 'L[*].f', loop writes='elements:L')
+    def elems_snapshot(self, st, l, node=None):
+        "(items array, length) of a list of object references, as of state st"
+        if not isinstance(l, VList) or len(slots(l.elem)) != 1 or slots(l.elem)[0] != IntS:
+            raise Unsupported('element region of a list that does not hold plain object references', node)
+        a = self.harr(st, self.items_key(l.elem, 0), z3.ArraySort(IntS, IntS))
+        return (z3.Select(a, l.t), self.list_len(st, l))
+
+    def elem_member(self, region, r):
+        items, n = region
+        i = fresh_int('mi')
+        return z3.Exists([i], AND(i >= 0, i < n, z3.Select(items, i) == r), patterns=[z3.Select(items, i)])
+
+    def elem_not_member(self, region, r):
+        items, n = region
+        i = fresh_int('mi')
+        return z3.ForAll([i], z3.Implies(AND(i >= 0, i < n), z3.Select(items, i) != r), patterns=[z3.Select(items, i)])
+
+    def quick_valid(self, st, goal, ms=1500):
+        "silent validity test of an auxiliary fact (never an obligation; `False` also means `do not know`)"
+        s = z3.Solver()
+        s.set('timeout', ms)
+        s.add(*(list(st.pc) + self.base_axioms() + [NOT(goal)]))
+        return s.check() == z3.unsat
+
+    def elem_frame_axiom(self, st, region, new, cur):
+        """new[r] == cur[r] unless r is an element of the region.
+        Cheap form first: when every element is provably younger than this call (or than the call that
+        owns the running closure), `r < bound => unchanged` says all a caller can need about older objects
+        and creates no index terms.  General form: the existential is skolemised -- for every r either
+        idx(r) is an index of r in the list or the location is unchanged."""
+        items, n = region
+        i = fresh_int('mi')
+        r = fresh_int('fr')
+        for b in (st.owner_bound, st.old.alloc if st.old is not None else None):
+            if b is None:
+                continue
+            young = z3.ForAll([i], z3.Implies(AND(i >= 0, i < n), z3.Select(items, i) >= b),
+                              patterns=[z3.Select(items, i)])
+            if self.quick_valid(st, young):
+                st.assume(z3.ForAll([r], z3.Implies(r < b, z3.Select(new, r) == z3.Select(cur, r)),
+                                    patterns=[z3.Select(new, r)]))
+                return
+        idx = z3.Function(fresh_name('idx'), IntS, IntS)
+        st.assume(z3.ForAll([r], OR(AND(idx(r) >= 0, idx(r) < n, z3.Select(items, idx(r)) == r),
+                                    z3.Select(new, r) == z3.Select(cur, r)),
+                            patterns=[z3.Select(new, r)]))
 
     def store_field(self, st, ref, field, val, node=None):
         self.check_fresh_write(st, ref.t, node, 'store to .%s' % field)
